@@ -60,6 +60,10 @@ def run(F, rep, tier):
     import core
     import c03
     core.borrow(rep, c03.pairing, lambda o: o["rule"] == "FIELD-SETS", F)
+    # "a pure function reads no mutable variable" and "a constant is not assigned" are decided for the declaration a name resolves to:
+    # a declaration that outlives its block makes the later uses of the name resolve to the wrong one (shared with C03)
+    import c09
+    core.borrow(rep, lambda F_, r_: c09.scope_rules(F_, r_, "SCOPE"), lambda o: o["rule"] == "SCOPE", F)
     # .. and a requirement recorded on a node stays until the node is merged: a handler that removes the constraint it has just
     # checked forgets it for the next type the node meets
     constraints_are_kept(F, rep)
